@@ -431,6 +431,6 @@ func runCKKSRefreshBody(c CKKSCase, rec *h.Rec) error {
 	return nil
 }
 
-var propCKKSRefresh = h.NewProp("TestPropCKKSRefresh", h.Budget{Quick: 600, Thorough: 3000}, genCKKSRefresh, runCKKSRefresh)
+var propCKKSRefresh = h.NewProp("TestPropCKKSRefresh", h.Budget{Quick: 600, Thorough: 5000}, genCKKSRefresh, runCKKSRefresh)
 
 func TestPropCKKSRefresh(t *testing.T) { propCKKSRefresh.Check(t) }
